@@ -26,7 +26,8 @@ Emits(a, b) ==
          /\ EmitCase("ff.tensor", P, [f |-> a, g |-> b]) /\ EmitCase("ff.coequalizer", P, [f |-> a, g |-> b])
          /\ EmitCase("ff.eq", P, [f |-> a, g |-> b]) /\ EmitCase("ff.injections", P, [s |-> a, a |-> b])
          /\ (RangeOf(a.table) = Range0(a.target) => EmitCase("ff.coequalizer_universal", P, [q |-> a, f |-> b]))
-         /\ (a = b => EmitCase("ff.compose_shr", P, [f |-> a, g |-> b]) /\ EmitCase("ff.coproduct_add", P, [f |-> a, g |-> b]) /\ EmitCase("ff.tensor_bitor", P, [f |-> a, g |-> b]))
+         /\ EmitCase("ff.compose_shr", P, [f |-> a, g |-> b]) /\ EmitCase("ff.coproduct_add", P, [f |-> a, g |-> b]) /\ EmitCase("ff.tensor_bitor", P, [f |-> a, g |-> b])
+         /\ EmitCase("sfa.compose", P, [f |-> [kind |-> "finite", f |-> a], g |-> [kind |-> "finite", f |-> b]])
     [] kind = "scalar" ->
          /\ EmitCase("ff.inj0", P, [a |-> a, b |-> b]) /\ EmitCase("ff.inj1", P, [a |-> a, b |-> b])
          /\ EmitCase("ff.twist", P, [a |-> a, b |-> b]) /\ EmitCase("ff.transpose", P, [a |-> a, b |-> b])
